@@ -1,23 +1,24 @@
 ---------------------- MODULE Trace_Bitemporal_Explain ----------------------
 (* For the replay files of property C17: what the LAW of spec/Bitemporal.tla expects for a      *)
-(* rejected read.  Each line of the file is  [hist, T]  (hist = the merge / again events before *)
-(* the read); printed is, for that line, the as-of picture and the two admitted readings of     *)
+(* rejected read.  Each line of the file is  [hist, w, z]  (hist = the merge / again events     *)
+(* before the read, <<w, z>> the read time as written); printed is, for that line, the as-of picture and the two admitted readings of     *)
 (* "first value published".  Used only to fill the `expected` field of a reported violation.    *)
 EXTENDS Bitemporal, Batch
 
 RECURSIVE PubsOf(_, _)
 PubsOf(ev, k) == IF k = 0 THEN <<>>
-                 ELSE IF ev[k].op = "merge" THEN Append(PubsOf(ev, k - 1), <<ev[k].s, SeqMap(ev[k].v)>>)
+                 ELSE IF ev[k].op = "merge" THEN Append(PubsOf(ev, k - 1), <<<<ev[k].w, ev[k].z>>, SeqMap(ev[k].v)>>)
                  ELSE PubsOf(ev, k - 1)
 
 Explain(i) ==
     LET o == Obs[i]
         p == PubsOf(o.hist, Len(o.hist))
-        D == PublishedBy(p, o.T)
+        T == Instant(<<o.w, o.z>>)
+        D == PublishedBy(p, T)
     IN  [line |-> i,
-         latest |-> MapSeq(AsOf(p, o.T)),
-         first_published |-> MapSeq([d \in D |-> FirstPublished(p, d, o.T)]),
-         first_settled   |-> MapSeq([d \in D |-> FirstSettled(p, d, o.T)])]
+         latest |-> MapSeq(AsOf(p, T)),
+         first_published |-> MapSeq([d \in D |-> FirstPublished(p, d, T)]),
+         first_settled   |-> MapSeq([d \in D |-> FirstSettled(p, d, T)])]
 
 Init == c = 1 /\ l = 0 /\ BInit
 Next == /\ l < N
